@@ -24,7 +24,7 @@ READ_ALPHABET = "ACGTNacgtnRYX!"
 
 # (m, n, rates, profile): profile 'full' = 3 wildcard modes x all listed overlaps; 'lean' = no wildcards, overlaps {1, m}
 QUICK_SHAPES = [(3, 1, None, "full"), (3, 2, None, "lean"), (3, 5, None, "lean"), (4, 2, (0.25, 0.5), "lean"), (4, 6, (0.25, 0.5), "lean")]
-THOROUGH_SHAPES = [(2, 3, None, "full"), (3, 1, None, "full"), (3, 2, None, "full"), (3, 5, None, "full"), (4, 2, None, "full"), (4, 3, None, "lean"), (4, 6, None, "full"),
+THOROUGH_SHAPES = [(2, 3, None, "full"), (3, 1, None, "full"), (3, 2, None, "full"), (3, 5, None, "full"), (4, 2, None, "full"), (4, 3, None, "lean"), (4, 6, None, "lean"),
                    (5, 3, (0.2, 0.4), "lean"), (5, 7, (0.2, 0.4), "lean")]
 
 
@@ -78,6 +78,9 @@ def jobs(tier, seed):
             out.append({"name": "pickled-copy/%s/%s" % (kind, AC.cfg_name(cfg)), "fn": "reduce", "kind": kind, "cfg": cfg, "n": 6})
     # table level (harness/kmer_tables.py): adapter lengths 5..34 (48), every admissible occurrence keeps a k-mer in its window
     out.extend(KT.table_jobs(tier, seed))
+    if tier != "quick":
+        # the cheap families first, so that a global deadline cuts the large end-to-end shapes and not these
+        out.sort(key=lambda j: 0 if j.get("fn") in ("table", "reduce") else 1)
     return out
 
 
